@@ -151,7 +151,7 @@ func main() {
 		patterns = append(patterns, p)
 	}
 	sort.Strings(patterns)
-	patterns = append(patterns, "unicode/utf8", "sort", "errors", "fmt")
+	patterns = append(patterns, "unicode/utf8", "sort", "errors", "fmt", "strconv")
 	lcfg := &packages.Config{
 		Mode:    packages.LoadAllSyntax,
 		Dir:     *repo,
